@@ -62,7 +62,14 @@ def has_no_utc_offset(entered_input: str) -> EvaluatedFormatConstraint:
     if error_result is not None:
         return error_result
     original_time = date_time.time()  # type:ignore[union-attr]
-    utc_time = date_time.astimezone(tz=utc).time()  # type:ignore[union-attr]
+    try:
+        utc_time = date_time.astimezone(tz=utc).time()  # type:ignore[union-attr]
+    except OverflowError as overflow_error:
+        # at the very edges of the representable range the conversion to UTC leaves datetime.min/max
+        return EvaluatedFormatConstraint(
+            format_constraint_fulfilled=False,
+            error_message=f"The provided date time '{entered_input}' cannot be converted to UTC: {overflow_error}",
+        )
     if utc_time == original_time:
         return EvaluatedFormatConstraint(format_constraint_fulfilled=True, error_message=None)
     error_message = f"The provided date time '{entered_input}' has a UTC offset of {utc_time}."
@@ -103,7 +110,16 @@ def is_xtag_limit(entered_input: str, division: Union[Literal["Strom"], Literal[
         xtag_evaluator = is_gastag_limit
     else:
         raise NotImplementedError(f"The division must either be 'Strom' or 'Gas': '{division}'")
-    if xtag_evaluator(date_time):  # type:ignore[arg-type]
+    try:
+        is_limit = xtag_evaluator(date_time)  # type:ignore[arg-type]
+    except OverflowError as overflow_error:
+        # at the very edges of the representable range the conversion to German local time leaves datetime.min/max
+        return EvaluatedFormatConstraint(
+            format_constraint_fulfilled=False,
+            error_message=f"The given datetime '{entered_input}' cannot be converted to German local time: "
+            f"{overflow_error}",
+        )
+    if is_limit:
         return EvaluatedFormatConstraint(format_constraint_fulfilled=True, error_message=None)
     error_message = (
         f"The given datetime '{date_time.isoformat()}' is not the limit of a {division}tag"  # type:ignore[union-attr]
